@@ -70,6 +70,9 @@ pub enum Kind {
     Unknown(u64),
     /// closed before (cut = 0) or inside (cut >= 1) the type varint of the given form
     Early { form: usize, cut: usize, reset: bool },
+    /// stays open with an incomplete header for ever: `what` 0 = `cut` bytes of a `form`-byte type varint,
+    /// 1 = push stream type and a cut push id, 2 = WebTransport stream type and a cut session id
+    Stalled { what: u8, form: usize, cut: usize },
 }
 
 #[derive(Debug, Clone, PartialEq, Eq, Hash)]
@@ -128,6 +131,23 @@ pub struct Expect {
 /// stream that ends with RESET may have shown the endpoint any prefix of its frames - or nothing at
 /// all (reset before the type was known): one alternative per possibility.
 pub fn model_alternatives(s: &Scn) -> Vec<Expect> {
+    // which of several control streams is "the" control stream and which the surplus one depends on the order in which
+    // their types become known (chunking), not on the order in which they were opened: one ordering per candidate
+    let controls: Vec<usize> = s.streams.iter().enumerate().filter(|(_, st)| matches!(st.kind, Kind::Control { .. })).map(|(i, _)| i).collect();
+    if controls.len() < 2 {
+        return alternatives_in_order(s);
+    }
+    let mut out = Vec::new();
+    for ci in controls {
+        let mut s2 = s.clone();
+        let c = s2.streams.remove(ci);
+        s2.streams.insert(0, c);
+        out.extend(alternatives_in_order(&s2));
+    }
+    out
+}
+
+fn alternatives_in_order(s: &Scn) -> Vec<Expect> {
     // positions with a choice: (stream index, number of options)
     let mut choice_points: Vec<(usize, usize)> = Vec::new();
     for (i, st) in s.streams.iter().enumerate() {
@@ -248,7 +268,7 @@ pub fn model(s: &Scn) -> Expect {
                 }
             }
             Kind::Push { .. } => e.unspecified = true,
-            Kind::WtUni { .. } | Kind::Grease | Kind::Unknown(_) | Kind::Early { .. } => {}
+            Kind::WtUni { .. } | Kind::Grease | Kind::Unknown(_) | Kind::Early { .. } | Kind::Stalled { .. } => {}
         }
     }
     e
@@ -323,6 +343,23 @@ fn stream_ops(st: &UniStream, key: usize, sig: (bool, bool), server: bool, first
         Kind::Unknown(t) => {
             ops.push(PeerOp::Write(key, type_bytes(*t, st.type_form)));
             ops.push(PeerOp::Write(key, vec![0; 9]));
+        }
+        Kind::Stalled { what, form, cut } => {
+            let form = (*form).max(2);
+            let b = match what {
+                0 => {
+                    let full = rv::encode_len(0x21 + 0x1f * 3, form).unwrap();
+                    full[..(*cut).clamp(1, form - 1)].to_vec()
+                }
+                w => {
+                    let mut b = type_bytes(if *w == 1 { 0x01 } else { 0x54 }, st.type_form);
+                    let id = rv::encode_len(64, form).unwrap();
+                    b.extend_from_slice(&id[..(*cut).clamp(1, form - 1)]);
+                    b
+                }
+            };
+            ops.push(PeerOp::Write(key, b));
+            return ops;
         }
         Kind::Early { form, cut, reset } => {
             let full = rv::encode_len(0x21 + 0x1f * 2, (*form).max(2)).unwrap();
@@ -674,7 +711,7 @@ fn gen_control(t: &mut Tape, maxf: usize, uniform: bool) -> Kind {
 }
 
 fn gen_extra_bounded(t: &mut Tape) -> Option<UniStream> {
-    let kind = match t.pick(10) {
+    let kind = match t.pick(11) {
         0 => return None,
         1 => Kind::Control { frames: vec![CF::Settings], end: End::Open },
         2 => Kind::Encoder,
@@ -684,6 +721,7 @@ fn gen_extra_bounded(t: &mut Tape) -> Option<UniStream> {
         6 => Kind::Grease,
         7 => Kind::Unknown(0x53),
         8 => Kind::Early { form: 2, cut: 1, reset: true },
+        9 => Kind::Stalled { what: 0, form: 2, cut: 1 },
         _ => Kind::Early { form: 1, cut: 0, reset: false },
     };
     Some(UniStream { kind, type_form: 2, end_after: End::Open })
@@ -699,6 +737,7 @@ fn gen_extra(t: &mut Tape) -> Option<UniStream> {
         5 => Kind::WtUni { session: *t.choose(&[0u64, 4, 60, 64, 68, 16384, 1 << 30]) },
         6 => Kind::Grease,
         7 => Kind::Unknown(*t.choose(&[0x04u64, 0x05, 0x40, 0x53, 0x55, 0xffff, (1 << 62) - 1])),
+        8 => Kind::Stalled { what: t.pick(3) as u8, form: *t.choose(&[2usize, 4, 8]), cut: 1 + t.pick(7) },
         _ => Kind::Early { form: *t.choose(&[1usize, 2, 4, 8]), cut: t.pick(4), reset: t.bool() },
     };
     Some(UniStream { kind, type_form: *t.choose(&[1usize, 1, 2, 4, 8]), end_after: *t.choose(&[End::Open, End::Open, End::Fin, End::Reset]) })
@@ -716,6 +755,12 @@ fn gen(t: &mut Tape, bounded: bool) -> Scn {
         if let Some(s) = if bounded { gen_extra_bounded(t) } else { gen_extra(t) } {
             streams.push(s);
         }
+    }
+    // the control stream is not always the first stream the peer opens
+    if has_control && streams.len() >= 2 && (if bounded { t.bool() } else { t.chance(1, 2) }) {
+        let pos = if bounded { 1 } else { 1 + t.pick(streams.len() - 1) };
+        let c = streams.remove(0);
+        streams.insert(pos, c);
     }
     // QPACK streams of a well behaved peer (most of the time)
     if !bounded && t.chance(1, 2) {
